@@ -489,7 +489,7 @@ func (c *fileCtx) rewriteGo(g *ast.GoStmt) ast.Stmt {
 		callExpr.Ellipsis = token.Pos(1)
 	}
 	body := &ast.FuncLit{Type: &ast.FuncType{Params: &ast.FieldList{}}, Body: &ast.BlockStmt{List: []ast.Stmt{&ast.ExprStmt{X: callExpr}}}}
-	spawn := &ast.ExprStmt{X: call(sel("_vsched", "Go"), &ast.BasicLit{Kind: token.STRING, Value: fmt.Sprintf("%q", name)}, body)}
+	spawn := &ast.ExprStmt{X: call(sel("_vsched", "GoRepo"), &ast.BasicLit{Kind: token.STRING, Value: fmt.Sprintf("%q", name)}, body)}
 	if len(pre) == 0 {
 		return spawn
 	}
